@@ -33,7 +33,8 @@ from traits.trait_list_object import TraitList  # noqa: E402
 from traits.trait_set_object import TraitSet  # noqa: E402
 
 EXN = ["NotifierNotFound"]
-FN = {0: "value", 1: "f", 2: "g", 3: "kids", 4: "m", 5: "s", 10: "trait_added", 11: "trait_modified"}
+FN = {0: "value", 1: "f", 2: "g", 3: "kids", 4: "m", 5: "s", 10: "trait_added", 11: "trait_modified",
+      12: "x1", 13: "x2"}      # 12, 13: dynamic Instance traits added with add_trait
 NF = {v: k for k, v in FN.items()}
 
 
@@ -57,6 +58,11 @@ class N(HasTraits):
 def build_expr(g):
     """g = [field, notify, optional, [children]] -> ObserverExpression (public expression API)."""
     f, notify, optional, children = g
+    if f == "|":
+        e = build_expr(children[0])
+        for c in children[1:]:
+            e = e | build_expr(c)
+        return e
     if f == "anytrait":
         e = X.anytrait(notify=bool(notify))
     elif f == "tag":
@@ -65,7 +71,7 @@ def build_expr(g):
         e = X.match(match_fg, notify=bool(notify))
     elif f == "match_vk":
         e = X.match(match_vk, notify=bool(notify))
-    elif f <= 5:
+    elif f <= 5 or f >= 10:
         e = X.trait(FN[f], notify=bool(notify), optional=bool(optional))
     elif f == 6:
         e = X.list_items(notify=bool(notify), optional=bool(optional))
@@ -153,6 +159,10 @@ class World:
             for f in (1, 2):
                 v = o.__dict__.get(FN[f])
                 out["%d,%d" % (i, f)] = [] if v is None else self.ids([v])
+            for f in (12, 13):
+                v = o.__dict__.get(FN[f])
+                if v is not None:
+                    out["%d,%d" % (i, f)] = self.ids([v])
             for f in (3, 4, 5):
                 v = o.__dict__.get(FN[f])
                 out["%d,%d" % (i, f)] = [] if v is None else self.ids([v])
@@ -169,14 +179,7 @@ class World:
         nm, users = 0, []
         for n in notifiers or []:
             if isinstance(n, ObserverChangeNotifier):
-                if "TraitAddedObserver" in getattr(n.observer_handler, "__qualname__", ""):
-                    continue          # trait_added extra graphs are outside the model
-                node = n.graph.node
-                if isinstance(node, FilteredTraitObserver):
-                    # the model holds one named-trait maintainer per matching trait name
-                    nm += sum(1 for name, t in self.pool[0].traits().items() if node.filter(name, t))
-                else:
-                    nm += 1
+                nm += 1           # on trait_added: the TraitAddedObserver maintainers (KAdded in the model)
             elif isinstance(n, TraitEventNotifier):
                 key = self.hkey.get(id(n.handler()), (99, 99))
                 users.append([key[0], key[1], n._ref_count])
@@ -299,6 +302,8 @@ class World:
                     cont.clear()
                 else:
                     raise ValueError(meth)
+        elif k == "AddTrait":
+            self.pool[op[1]].add_trait(FN[op[2]], Instance(HasTraits))
         elif k == "Probe":
             self.counter += 1
             self.pool[op[1]].value = self.counter
